@@ -5,9 +5,13 @@
 //!
 //!   vh record <domain> [--tier quick|thorough] -o <trace.ndjson>     (impl -> spec, Leg T)
 //!   vh replay <domain> <behaviours.ndjson> -o <result.ndjson>        (spec -> impl, Leg R)
+#[path = "../util.rs"]
 mod util;
+#[path = "../store.rs"]
 mod store;
+#[path = "../bmt.rs"]
 mod bmt;
+#[path = "../smt.rs"]
 mod smt;
 
 use std::process::exit;
